@@ -136,7 +136,7 @@ type e2eScript struct {
 	Status  int         `json:"status"`
 	Headers [][2]string `json:"headers,omitempty"`
 	Body    []byte      `json:"-"`    // bytes put on the wire (already encoded)
-	Mode    string      `json:"mode"` // cl | chunked | short | short-chunked | drop | reset | drop-in-headers | hang
+	Mode    string      `json:"mode"` // cl | chunked | short | short-chunked | drop | reset | drop-in-headers | hang | bodiless
 	SendN   int         `json:"sendN,omitempty"`
 	// short: Content-Length len(Body) is declared, only Body[:SendN] is sent, then the
 	// connection is closed.
@@ -155,6 +155,12 @@ type e2eScript struct {
 	// request body / before answering.
 	ReadDelayMs int `json:"readDelayMs,omitempty"`
 	RespDelayMs int `json:"respDelayMs,omitempty"`
+	// bodiless: the response has no body by definition (answer to a HEAD request, status 204
+	// or 304) but its head declares `Content-Length: Declared` (Declared < 0: no
+	// Content-Length line).  A HEAD request (status other than 204 / 304) is answered through
+	// net/http's server, which keeps a Content-Length the handler set; everything else is
+	// written raw (net/http strips Content-Length from 204 / 304) with `Connection: close`.
+	Declared int64 `json:"declared,omitempty"`
 	// FailReadN > 0: a failing contact (one of the first FailFirst) reads only FailReadN
 	// bytes of the request body and then resets the connection (RST) without a response
 	// byte: a backend that dies in the middle of an upload.  What it read is recorded with
@@ -414,6 +420,37 @@ func (b *e2eBackend) ServeHTTP(w http.ResponseWriter, r *http.Request) {
 		return
 	}
 	switch mode {
+	case "bodiless":
+		if r.Method == "HEAD" && sc.Status != 204 && sc.Status != 304 {
+			h := w.Header()
+			for _, kv := range sc.Headers {
+				h.Add(kv[0], kv[1])
+			}
+			if sc.Declared >= 0 {
+				h.Set("Content-Length", strconv.FormatInt(sc.Declared, 10))
+			}
+			w.WriteHeader(sc.Status)
+			return
+		}
+		hj, ok := w.(http.Hijacker)
+		if !ok {
+			w.WriteHeader(597)
+			return
+		}
+		c, bw, err := hj.Hijack()
+		if err != nil {
+			return
+		}
+		fmt.Fprintf(bw, "HTTP/1.1 %d %s\r\n", sc.Status, http.StatusText(sc.Status))
+		for _, kv := range sc.Headers {
+			fmt.Fprintf(bw, "%s: %s\r\n", kv[0], kv[1])
+		}
+		if sc.Declared >= 0 {
+			fmt.Fprintf(bw, "Content-Length: %d\r\n", sc.Declared)
+		}
+		bw.WriteString("Connection: close\r\n\r\n")
+		bw.Flush()
+		c.Close()
 	case "short":
 		hj, ok := w.(http.Hijacker)
 		if !ok {
@@ -514,6 +551,47 @@ type e2eCfg struct {
 	// DeadPort: the pool's only server is 127.0.0.1:<DeadPort>, a port that refuses
 	// connections (see e2eReservePort)
 	DeadPort string `json:"deadPort,omitempty"`
+	// Further pools of the Proxy, each with a backend of its own (see e2ePoolX): a mirrorPool
+	// and a candidate pool (a pool with a filter, listed before the main pool).
+	Mirror    *e2ePoolX `json:"mirrorPool,omitempty"`
+	Candidate *e2ePoolX `json:"candidatePool,omitempty"`
+}
+
+// e2ePoolX is an additional pool of the Proxy (mirrorPool or candidate pool) with its own
+// recording backend and a request filter.
+type e2ePoolX struct {
+	Port string `json:"port"` // loopback port of this pool's backend (an e2eBackend)
+	// Filter: "header" (one header must have the exact value), "header-all" (matchAllHeaders
+	// over that header and a Host-independent second one that every e2e request carries:
+	// the exchange id, by regex) or "random-1000" (policy random, permil 1000: every request)
+	Filter      string `json:"filter"`
+	HeaderName  string `json:"headerName,omitempty"`
+	HeaderValue string `json:"headerValue,omitempty"`
+}
+
+func (p *e2ePoolX) yaml(indent string) string {
+	var b strings.Builder
+	w := func(format string, a ...interface{}) { b.WriteString(indent); fmt.Fprintf(&b, format, a...) }
+	w("servers:\n")
+	w("- url: http://127.0.0.1:%s\n", p.Port)
+	w("filter:\n")
+	switch p.Filter {
+	case "random-1000":
+		w("  policy: random\n")
+		w("  permil: 1000\n")
+	case "header-all":
+		w("  matchAllHeaders: true\n")
+		w("  headers:\n")
+		w("    %s:\n", p.HeaderName)
+		w("      exact: %q\n", p.HeaderValue)
+		w("    %s:\n", e2eIDHeader)
+		w("      regex: \"^.+$\"\n")
+	default:
+		w("  headers:\n")
+		w("    %s:\n", p.HeaderName)
+		w("      exact: %q\n", p.HeaderValue)
+	}
+	return b.String()
 }
 
 // e2eCB is a CircuitBreaker resilience policy (count based window).
@@ -614,7 +692,15 @@ func (c *e2eCfg) pipelineYAML(be *e2eBackend) string {
 	if c.Compression != nil {
 		fmt.Fprintf(&b, "  compression:\n    minLength: %d\n", *c.Compression)
 	}
-	b.WriteString("  pools:\n  - servers:\n")
+	if c.Mirror != nil {
+		b.WriteString("  mirrorPool:\n")
+		b.WriteString(c.Mirror.yaml("    "))
+	}
+	b.WriteString("  pools:\n")
+	if c.Candidate != nil {
+		b.WriteString("  - " + strings.TrimPrefix(c.Candidate.yaml("    "), "    "))
+	}
+	b.WriteString("  - servers:\n")
 	fmt.Fprintf(&b, "    - url: %s\n", c.backendURL(be))
 	if c.KeepHost {
 		b.WriteString("      keepHost: true\n")
@@ -795,6 +881,10 @@ type e2eReq struct {
 	Framing  string `json:"framing"`
 	Declared int    `json:"declared,omitempty"`
 	Chunk    int    `json:"chunk,omitempty"` // chunk size for chunked framing
+	// PaceUs > 0: the body is put on the wire in pieces of Chunk bytes (default 4096), each
+	// followed by a pause of PaceUs microseconds: a body that arrives in many reads (a lower
+	// bound on real time, never part of a verdict).
+	PaceUs int `json:"paceUs,omitempty"`
 }
 
 func (q *e2eReq) head() []byte {
@@ -821,7 +911,23 @@ func (q *e2eReq) writeTo(c *net.TCPConn) error {
 	}
 	switch q.Framing {
 	case "cl", "short-cl":
-		if len(q.Body) > 0 {
+		if len(q.Body) > 0 && q.PaceUs > 0 {
+			n := q.Chunk
+			if n <= 0 {
+				n = 4096
+			}
+			for rest := q.Body; len(rest) > 0; {
+				k := n
+				if k > len(rest) {
+					k = len(rest)
+				}
+				if _, err := c.Write(rest[:k]); err != nil {
+					return err
+				}
+				rest = rest[k:]
+				time.Sleep(time.Duration(q.PaceUs) * time.Microsecond)
+			}
+		} else if len(q.Body) > 0 {
 			if _, err := c.Write(q.Body); err != nil {
 				return err
 			}
@@ -845,6 +951,12 @@ func (q *e2eReq) writeTo(c *net.TCPConn) error {
 			bw.Write(rest[:k])
 			bw.WriteString("\r\n")
 			rest = rest[k:]
+			if q.PaceUs > 0 {
+				if err := bw.Flush(); err != nil {
+					return err
+				}
+				time.Sleep(time.Duration(q.PaceUs) * time.Microsecond)
+			}
 		}
 		bw.WriteString("0\r\n\r\n")
 		return bw.Flush()
